@@ -18,6 +18,18 @@ def prove(ctx, units, modules, required, tie_module, tie_ns, extra_allow=None, d
         return ((t.startswith(tie_ns + '.') or any(t.startswith(ns + '.') for _, ns in dependents))
                 and a.startswith(tie_ns + '.') and '._native.bv_decide.ax_' in a
                 and '_generated' in a.split('._native.bv_decide.ax_')[0].split('.')[-1])
+    # fast path: the tie theorems are stated against the interface (parameters, result fields) of the generated definitions; when the
+    # regenerated interface differs (a member added to a structure, a parameter changed) they cannot even be stated, so do not spend
+    # the build on them - the tie is broken and the search for a failing input starts at once
+    changed = []
+    for u in units:
+        changed += [f'{u}: {c}' for c in regen.signature_changes(u)]
+    if changed:
+        ctx.broken.append('tie T: the interface of the regenerated definitions differs from the one the tie theorems of ' + tie_module
+                          + ' are stated against (' + '; '.join(changed)[:900] + ')')
+        ok = ctx.prove(list(modules), list(required))
+        ctx.cov['tie_T_generated_units'] = {u: regen.UNITS2[u][1] for u in units if u in regen.UNITS2}
+        return False
     tie_file = tie_module.replace('.', '/') + '.lean'
     ties = [t for t in ctx.prop_theorems(tie_file) if t.endswith('_tie') or t.endswith('_generated')]
     deps = []
